@@ -106,6 +106,22 @@ ESC_TRIAGE = {
 }
 
 
+def check_decoder_input(ctx, rule, paths):
+    """message() is applied to the stripped line that was just read - that line by itself, nothing carried over from other lines - and what it
+    returns is handed over unmodified (also the per-line part of C01: a line's decoding depends on that line alone)"""
+    f_pa = ctx.repo.func('Parser.parse_all')
+    nm = 0
+    for p in paths:
+        for e in p.events:
+            if e.kind == 'call' and e.ftext == 'message':
+                nm += 1
+                ctx.check(e.argtext(0) == 'input_file.readline().strip()', rule, 'decode:the-line-read', f_pa.loc(e.node), 'the decoder is given the line just read (whitespace-stripped)', 'the decoder is given %s' % e.argtext(0))
+            if e.kind == 'call' and e.ftext == 'self.handle_message':
+                ctx.check([norm(a) for a in e.args] == ['message(input_file.readline().strip())[0]', 'message(input_file.readline().strip())[1]'], rule, 'decode:hands-over-result', f_pa.loc(e.node),
+                          'the decoded (connection id, message) pair is handed over unmodified', 'hands over %s' % e.text[:140])
+    ctx.floor(rule, nm, 1, 'message() call in parse_all')
+
+
 def parse_all_paths(ctx):
     repo = ctx.repo
     f_pa = repo.func('Parser.parse_all')
@@ -181,17 +197,7 @@ def run(ctx):
                 # decoding disabled (after an internal error): nothing is emitted for the line
                 ctx.check(not unp, 'C08.1', 'iteration:latched->nothing', f_pa.loc(), 'after the stop-decoding latch a message line yields nothing')
     ctx.floor('C08.1', n_it, 6, 'iterations examined')
-    # message() is applied to the stripped line that was just read
-    nm = 0
-    for p in paths:
-        for e in p.events:
-            if e.kind == 'call' and e.ftext == 'message':
-                nm += 1
-                ctx.check(e.argtext(0) == 'input_file.readline().strip()', 'C08.1', 'decode:the-line-read', f_pa.loc(e.node), 'the decoder is given the line just read (whitespace-stripped)', 'the decoder is given %s' % e.argtext(0))
-            if e.kind == 'call' and e.ftext == 'self.handle_message':
-                ctx.check([norm(a) for a in e.args] == ['message(input_file.readline().strip())[0]', 'message(input_file.readline().strip())[1]'], 'C08.1', 'decode:hands-over-result', f_pa.loc(e.node),
-                          'the decoded (connection id, message) pair is handed over unmodified', 'hands over %s' % e.text[:140])
-    ctx.floor('C08.1', nm, 1, 'message() call in parse_all')
+    check_decoder_input(ctx, 'C08.1', paths)
     # the latch: decoding starts enabled and only an internal error (the catch-all handler) turns it off - decided on two-iteration paths:
     # in the second iteration a decodable line is handed to the decoder exactly when the first iteration did not end in the catch-all handler
     paths2 = paths if ctx.tier == 'thorough' else paths_of(repo, f_pa, may_raise=mr, while_unroll=2)
@@ -221,7 +227,14 @@ def run(ctx):
     from ..report import Ctx as _Ctx
     from . import c01 as _c01
     sub = _Ctx('C01', repo, tier=ctx.tier, quiet=True)
-    _c01.run(sub)
+    try:
+        _c01.run(sub)
+    except AnalysisError as ex_c01:
+        # the line-language part cannot be evaluated on this tree: that clause is undecided (reported when nothing else is found), the rules
+        # about the loop, the pass-through text and the exits below are evaluated all the same
+        ctx.floor_failures.append('C08.1 (line acceptance, from C01): %s' % str(ex_c01)[:300])
+        sub.obligations = [o for o in sub.obligations if o['rule'] != 'C01.6'] + [{'rule': 'C01.6'}] * 4
+        sub.violations = [v for v in sub.violations if v['rule'] == 'C01.6']
     nacc = 0
     for o in sub.obligations:
         if o['rule'] == 'C01.6':
@@ -272,6 +285,17 @@ def run(ctx):
             sites_ = [x for x in f_msg.body_nodes() if isinstance(x, ast.Call) and isinstance(x.func, ast.Name) and x.func.id == rs.func.name]
             good = bool(sites_) and all((len(c_.args) > k_ and norm(c_.args[k_]) == f_msg.params()[0]) or any(kw.arg == n.exc.args[0].id and norm(kw.value) == f_msg.params()[0] for kw in c_.keywords) for c_ in sites_)
         ctx.check(good, 'C08.2', 'message:raises-the-line', f_msg.loc(n), 'the not-a-message error carries the raw line itself', 'the not-a-message error carries %s' % norm(n)[:80])
+    # .. and the name still holds the line as it was read: no path that ends in the not-a-message error rebinds the parameter before raising
+    try:
+        raw_paths = paths_of(repo, f_msg)
+    except AnalysisError:
+        raw_paths = []
+    par_raw = f_msg.params()[0]
+    for p in raw_paths:
+        if p.outcome[0] == 'raise' and p.outcome[1] == 'RuntimeError':
+            reb = [e for e in p.events if e.kind == 'bind' and e.target == par_raw and e.func is f_msg]
+            ctx.check(not reb, 'C08.2', 'message:line-unaltered-when-raised', f_msg.loc(reb[0].node) if reb else f_msg.loc(),
+                      'the line is not rebound before it is raised as not-a-message text', 'the line handed to the pass-through is first altered: %s = %s' % (par_raw, norm(reb[0].value)[:80] if reb else ''))
     ctx.floor('C08.2', len(own), 1, 'not-a-message raise in parse.message')
     # no RuntimeError can come out of the listener dispatch (a line never yields both a shown message and a pass-through item)
     f_cim = repo.func('ConnectionImpl.message')
@@ -305,6 +329,10 @@ def run(ctx):
 
     # ---- C08.3 exits ---------------------------------------------------------------------------------------------
     esc = {rs for rs in ex.escapes(f_pa) if (rs.func.qual, rs.exc) not in ESC_TRIAGE}
+    from . import common as _cmn
+    for rs in sorted((r for r in esc if r.kind == 'assert'), key=lambda r: r.key()):
+        _cmn.unproved_assert(ctx, 'C08.3', rs, f_pa)       # a new assertion whose truth is not visible in its function: undecided, not an alarm
+    esc = {rs for rs in esc if rs.kind != 'assert'}
     ctx.check(not esc, 'C08.3', 'parse_all:escape-set-empty', f_pa.loc(), 'no exception of the modelled kinds can escape parse_all (handlers cover the decode step, their own calls raise nothing)',
               'exceptions can escape parse_all: %s' % sorted(r.key() for r in esc)[:4])
     check_loop_exits(ctx, 'C08.3', paths)
@@ -327,6 +355,8 @@ def run(ctx):
         for n in f.body_nodes():
             if isinstance(n, ast.Attribute) and n.attr == 'show_unprocessed' and isinstance(n.ctx, ast.Load):
                 reads.append((f, n))
+    # (a read inside a logging argument, or inside a freshly added accessor / __repr__, counts for the places that use the result)
+    reads = [(g_, n) for f, n in reads for g_ in _cmn.effective_readers(repo, f, n)]
     for f, n in reads:
         ctx.check(f.short in ('Output.unprocessed', 'Plugin.__init__'), 'C08.4', 'show_unprocessed:read:%s' % f.qual, f.loc(n), 'the --supress switch is read only by the pass-through sink (and the GDB tty switch)',
                   'the --supress switch is also read in %s' % f.short)
